@@ -104,6 +104,24 @@ func (e *boundsEngine) eval(v ssa.Value, at *ssa.BasicBlock, depth int) bnd {
 	e.busy[v] = true
 	defer delete(e.busy, v)
 	r := e.eval1(v, at, depth)
+	// a byte (or uint16) is within its type's range whatever it was computed from
+	if bt, ok := v.Type().Underlying().(*types.Basic); ok && r.loLen == nil && r.hiLen == nil {
+		var max int64 = -1
+		switch bt.Kind() {
+		case types.Uint8:
+			max = 255
+		case types.Uint16:
+			max = 65535
+		}
+		if max >= 0 {
+			if r.lo < 0 {
+				r.lo = 0
+			}
+			if r.hiK > max {
+				r.hiK = max
+			}
+		}
+	}
 	// refine by dominating comparisons
 	r = e.refine(v, r, at)
 	return r
@@ -912,9 +930,16 @@ func (e *boundsEngine) indexOK(base, idx ssa.Value, at *ssa.BasicBlock) (bool, s
 		return true, "range index"
 	}
 	b := e.eval(idx, at, 0)
+	if n, ok := arrayLen(base.Type()); ok && b.geZero() && b.hiLen == nil && b.hiK < n {
+		return true, fmt.Sprintf("index in %s of a fixed array of %d", b, n)
+	}
 	L := canonLen(base)
 	if b.geZero() && b.leLen(L, -1) {
 		return true, "0 <= index <= len-1: " + b.String()
+	}
+	// s[0] under `s != ""`
+	if k, ok := constInt(idx); ok && k == 0 && isStringType(base.Type()) && stringNonEmptyAt(base, at) {
+		return true, "first byte of a string tested non-empty"
 	}
 	// table indexed by a function with a finite range
 	if c, ok := idx.(*ssa.Call); ok && c.Call.StaticCallee() != nil {
@@ -1467,4 +1492,41 @@ func (e *boundsEngine) indexSummary(p *ssa.Parameter) (ps, pw *ssa.Parameter, no
 		}
 	}
 	return ps, pw, nonneg, ps != nil
+}
+
+// stringNonEmptyAt: blk is dominated by the edge on which the string s is not "".
+func stringNonEmptyAt(s ssa.Value, blk *ssa.BasicBlock) bool {
+	for _, b := range blk.Parent().Blocks {
+		ifi := blockIf(b)
+		if ifi == nil {
+			continue
+		}
+		cmp, neg := decodeCond(ifi.Cond)
+		if cmp == nil || cmp.Op != token.EQL && cmp.Op != token.NEQ {
+			continue
+		}
+		var other ssa.Value
+		if c, ok := constString(cmp.Y); ok && c == "" {
+			other = cmp.X
+		} else if c, ok := constString(cmp.X); ok && c == "" {
+			other = cmp.Y
+		} else {
+			continue
+		}
+		if !sameValue(other, s) {
+			continue
+		}
+		ne := cmp.Op == token.NEQ
+		if neg {
+			ne = !ne
+		}
+		succ := b.Succs[1]
+		if ne {
+			succ = b.Succs[0]
+		}
+		if len(succ.Preds) == 1 && (succ == blk || succ.Dominates(blk)) {
+			return true
+		}
+	}
+	return false
 }
